@@ -9,7 +9,7 @@ META = dict(
     explanation='nlist.pyx (re-translated from source; its bin/ghost/half-stencil sweep executed on symbolic atom coordinates) and NeighborList are executed for 2-3 atoms in a table of concrete (cell, cutoff, periodicity) entries. Bin indices, ghost membership and the cutoff test fork, so the solver derives the partition of configuration space that the code\'s own branching induces and decides the list on each whole region against the C02 periodic distance (dmag2_c executed symbolically).',
     functions=['atomman/core/nlist.pyx:nlist,unique_rows2', 'atomman/core/dmag.pyx:dmag2_c', 'atomman/core/NeighborList.py:NeighborList.__init__/build/__getitem__/coord/dump/load',
                'atomman/core/System.py:System.__init__', 'atomman/core/Atoms.py:Atoms.__init__'],
-    bounds=dict(quick='N=2 atoms, x and y of both atoms symbolic (z fixed), 6 table entries (orthogonal/tilted, origin, cutoff below/near/above the cell widths, pbc TTF/TFF/FFF), configuration space cut into axis-aligned sub-boxes; quick explores the face-adjacent sub-boxes within a time budget per sub-box (unexplored regions are counted and reported)',
+    bounds=dict(quick='N=2 atoms, two relative coordinates of both atoms symbolic (the third fixed), 10 table entries (orthogonal/tilted, origin, cutoff below/near/above the cell widths, pbc TTF/TFF/FFF), configuration space cut into axis-aligned sub-boxes; quick explores the face-adjacent sub-boxes within a time budget per sub-box (unexplored regions are counted and reported)',
                 thorough='all sub-boxes of every entry with a larger budget; N=3 for two entries incl. storage sizes (1,1),(2,1)'),
     outside=['N > 3 atoms', 'more than 40 atoms per bin (bin growth) and neighbour-row growth beyond the translator-validation replay', 'IEEE-754 rounding at bin edges (np.arange/digitize are executed on exact reals)'],
     lemmas=[], cuts=[],
@@ -27,6 +27,11 @@ ENTRIES = {
     'E4': (dict(lx=2.2, ly=2.1, lz=3.0, origin=[0.3, -0.2, 0.1]), 0.8, (True, False, False), (1.6, 1.6)),
     'E5': (dict(lx=1.5, ly=1.6, lz=3.0), 1.7, (True, True, False), (1.5, 1.5)),
     'E6': (dict(lx=2.0, ly=2.0, lz=3.0), 0.9, (False, False, False), (1.5, 2.0)),
+    # entries with the c direction periodic: the third tuple element names the two symbolic relative coordinates
+    'E7': (dict(lx=2.0, ly=2.1, lz=1.9), 0.6, (True, False, True), (1.0, 1.2), 'xz'),
+    'E8': (dict(lx=2.2, ly=1.8, lz=2.0, yz=0.4), 0.65, (False, True, True), (1.0, 1.3), 'yz'),
+    'E9': (dict(lx=2.0, ly=2.0, lz=1.7, origin=[-0.5, 0.2, 0.3]), 0.7, (False, False, True), (0.9, 1.1), 'xz'),
+    'E10': (dict(lx=1.9, ly=1.8, lz=2.0), 0.6, (True, True, True), (0.9, 1.0), 'yz'),
 }
 
 
@@ -41,7 +46,8 @@ def wellformed(lists, coord, n):
 
 def h_region(ename, sub, natoms=2, sizes=(20, 10), check_io=False):
     """sub: dict var -> (lo_frac, hi_frac) of the relative coordinate range explored by this case"""
-    bk, rc, pbc, zs = ENTRIES[ename]
+    bk, rc, pbc, zs = ENTRIES[ename][:4]
+    axes = ENTRIES[ename][4] if len(ENTRIES[ename]) > 4 else 'xy'
     def fn():
         import atomman as am
         box = am.Box(**bk)
@@ -49,9 +55,15 @@ def h_region(ename, sub, natoms=2, sizes=(20, 10), check_io=False):
         pos = []
         for k in range(natoms):
             # relative coordinates (s_x, s_y) symbolic inside the sub-box; Cartesian position by the concrete cell
-            sxv = var(f's{k}x', *sub.get(f's{k}x', (0, 1))); syv = var(f's{k}y', *sub.get(f's{k}y', (0, 1)))
-            szv = (zs[k % len(zs)] - O[2]) / V[2, 2]
-            p = [O[j] + sxv * float(V[0, j]) + syv * float(V[1, j]) + szv * float(V[2, j]) for j in range(3)]
+            # s{k}x / s{k}y name the first / second symbolic relative coordinate (axes say which cell directions they are)
+            s1 = var(f's{k}x', *sub.get(f's{k}x', (0, 1))); s2 = var(f's{k}y', *sub.get(f's{k}y', (0, 1)))
+            fixed = zs[k % len(zs)]
+            rel = {}
+            ax = ['xyz'.index(c) for c in axes]
+            rel[ax[0]] = s1; rel[ax[1]] = s2
+            third = [i for i in range(3) if i not in ax][0]
+            rel[third] = fixed / float(np.linalg.norm(V[third]))          # fixed relative coordinate along the remaining direction
+            p = [O[j] + rel[0] * float(V[0, j]) + rel[1] * float(V[1, j]) + rel[2] * float(V[2, j]) for j in range(3)]
             pos.append(p)
         P = sa(pos)
         s = am.System(atoms=am.Atoms(pos=P), box=box, pbc=pbc)
@@ -143,6 +155,10 @@ def cases(tier, seed=0):
         add('E4', {'s0x': (0, 0.25), 's0y': (0.3, 0.7), 's1x': (0.8, 1.0), 's1y': (0.3, 0.7)}, 'xfaces')
         add('E5', {'s0x': (0, 0.5), 's0y': (0, 0.5), 's1x': (0.5, 1.0), 's1y': (0.5, 1.0)}, 'half')
         add('E6', {'s0x': (0.2, 0.6), 's0y': (0.2, 0.6), 's1x': (0.4, 0.9), 's1y': (0.4, 0.9)}, 'interior')
+        add('E7', {'s0x': (0.2, 0.7), 's0y': (0.0, 0.2), 's1x': (0.2, 0.7), 's1y': (0.8, 1.0)}, 'cfaces')
+        add('E8', {'s0x': (0.0, 0.3), 's0y': (0.0, 0.25), 's1x': (0.7, 1.0), 's1y': (0.75, 1.0)}, 'corner')
+        add('E9', {'s0x': (0.3, 0.7), 's0y': (0.0, 0.25), 's1x': (0.3, 0.7), 's1y': (0.75, 1.0)}, 'cfaces')
+        add('E10', {'s0x': (0.0, 0.25), 's0y': (0.0, 0.25), 's1x': (0.75, 1.0), 's1y': (0.75, 1.0)}, 'corner')
         rng = np.random.default_rng(seed + 7)
         for k in range(4):
             e = ['E1', 'E2', 'E3', 'E5'][k]
